@@ -378,6 +378,7 @@ func evalC10(c *Ctx, cs EnumCase) EnumResult {
 				if !a.Text && len(d) == len(f) {
 					// the only differing answers are those of concurrent-check requests (flag 0x08), which a node may answer
 					// from its own copy of the key
+					// (what differs afterwards follows from that answer: the request never reached the leader)
 					only, any := true, false
 					for i := range d {
 						if fmt.Sprint(d[i]) != fmt.Sprint(f[i]) {
@@ -385,6 +386,7 @@ func evalC10(c *Ctx, cs EnumCase) EnumResult {
 							if i >= len(kept) || kept[i].Bin == nil || kept[i].Bin.Flag&0x08 == 0 {
 								only = false
 							}
+							break // the first differing answer decides
 						}
 					}
 					if only && any {
